@@ -47,6 +47,7 @@ struct CallRec {
     int cbs;   // non-log callbacks run during the call
     long buffered_before;  // bytes libhtp held for that direction before the call (C08 work measure)
     unsigned conn_flags_after; int ntx_after; int next_tx_after;
+    long msg_bytes_before; // bytes of the current message already offered in that direction (amortisation window of C08's per-call bound)
 };
 
 struct ConnRes {
